@@ -6,7 +6,7 @@ import random
 import vlib
 
 LEVEL = "model_checking"
-MAPS = [(1, 0, "int"), (1.0, 0.0, "float"), (0.25, -3.0, "x2^-2-3"), (1024.0, 7.0, "x2^10+7")]
+MAPS = [(1, 0, "int"), (1.0, 0.0, "float"), (0.25, -3.0, "x2^-2-3"), (1024.0, 7.0, "x2^10+7")]      # powers of two: exact ties stay exact
 
 
 def _pu():
@@ -111,15 +111,18 @@ def run(ctx):
             pts.append([x, y])
         sg = rng.choice([1, 1, 1, 1, 1, 1, 0, -1])
         tn = rng.choice([1, 3, 5, 11, 23, 47, 95, 200, 450, 1500])
+        td = 7
+        if rng.random() < 0.25:
+            tn, td = rng.choice([1, 4, 9, 25, 100]), 1           # exact tolerances 1, 2, 3, 5, 10: ties are possible and must be kept
         a, b, _ = rng.choice(MAPS)
-        e = run_ss(pu, pts, sg, tn, 7, a, b)
+        e = run_ss(pu, pts, sg, tn, td, a, b)
         e["map"] = [a, b]
         e["mode"] = "V"
         evs.append(e)
         if rng.random() < 0.5:
             k0 = rng.randint(0, L - 3)
             sub = pts[k0:k0 + rng.randint(3, min(8, L - k0))]
-            pe = run_pit(pu, sub, 1, tn, 7, a, b)
+            pe = run_pit(pu, sub, 1, tn, td, a, b)
             pe["map"] = [a, b]
             pe["mode"] = "V"
             evs.append(pe)
